@@ -3,6 +3,29 @@
 import json, os
 ROOT = os.path.dirname(os.path.dirname(os.path.abspath(__file__)))
 CHECKS = {
+ 'C01': dict(
+    text='Bounded symbolic execution (CrossHair/z3) of YP.query over the Python that the current compiler generates for a listed '
+         'family of 14 program skeletons (joins, repeated and nested head variables, 0-arity rules, anonymous variables, lists and '
+         '[H|T], recursion, =, \\=, true, fail, compiled atom facts), with the dynamic fact base (count and all integer arguments) and '
+         'the binding pattern and constants of every query argument symbolic; on every path the canonically renamed answer sequence '
+         '(order, multiplicity, aliasing) equals that of an independent SLD interpreter. CONFIRMED = path tree exhausted.',
+    note='Bounded: listed skeletons, <=2 (quick) / <=3 (thorough) facts per dynamic predicate, answer cap; the ANTLR front end and the '
+         'compiler run natively on concrete skeleton text; refprolog is the trusted oracle (validated against the repository tests).',
+    tech='symbolic execution of compiled clauses through YP.query (CrossHair+z3) vs reference SLD interpreter', ref='2 C01'),
+ 'C05': dict(
+    text='Bounded symbolic execution of the generated Python for clause bodies containing cut (all bodies with <=1 operator, seeded samples '
+         'of larger ones, two spellings; thorough: all with <=2 operators) inside "t :- BODY. t :- e. top :- (t ; g), f.", with the solution '
+         'count of every leaf-goal invocation symbolic (0..2 per goal and binding context); the answer sequence equals the reference '
+         'interpreter with ISO cut scope on every path; also a second definition combined with overwrite=False (cut locality).',
+    note='Bounded: body family, counts <=2, <=12 invocation contexts per run; leaf goals are stub predicates registered with register_function; '
+         'front end and compiler run natively per body.',
+    tech='symbolic execution of generated control code (CrossHair+z3) vs reference control semantics', ref='2 C05/C06'),
+ 'C06': dict(
+    text='Same machinery as C05 over the cut-free bodies built from , ; -> \\+ true fail and calls: every body with <=1 operator in the minimally '
+         'parenthesised spelling (relying on , < -> < ; right-associative) and the fully parenthesised one, plus seeded samples of larger bodies '
+         '(thorough: all with <=2 operators); symbolic solution counts per invocation; answers equal the reference semantics on every path.',
+    note='Bounded as C05; precedence/associativity is exercised through the real parser on the printed text of each tree (concrete text).',
+    tech='symbolic execution of generated control code (CrossHair+z3) vs reference control semantics', ref='2 C05/C06'),
  'C02': dict(
     text='Bounded symbolic execution (CrossHair/z3) of engine.unify and all its callees on pairs of terms whose '
          'integer constants, atom names and functor names are solver variables and whose shapes (depth<=1, 3 variables, '
